@@ -74,10 +74,31 @@ class LowerDimExpr:
 
     def _convert_op(self, name: str, operands: list[ir.Value]) -> ir.Value:
         if name == "floordiv":
+            # ONNX integer Div truncates toward zero while JAX dimension
+            # arithmetic floors. Subtracting the (divisor-signed) remainder
+            # first makes the division exact, which yields the floor.
+            remainder = cast(
+                ir.Value,
+                self.ctx.builder.Mod(
+                    operands[0],
+                    operands[1],
+                    _outputs=[self.ctx.fresh_name("dimexpr_floordiv_mod")],
+                ),
+            )
+            self._set_metadata(remainder)
+            exact_numerator = cast(
+                ir.Value,
+                self.ctx.builder.Sub(
+                    operands[0],
+                    remainder,
+                    _outputs=[self.ctx.fresh_name("dimexpr_floordiv_sub")],
+                ),
+            )
+            self._set_metadata(exact_numerator)
             result = cast(
                 ir.Value,
                 self.ctx.builder.Div(
-                    operands[0],
+                    exact_numerator,
                     operands[1],
                     _outputs=[self.ctx.fresh_name("dimexpr_div")],
                 ),
